@@ -351,7 +351,7 @@ type fvcC03Run struct {
 
 func (r *fvcC03Run) fail(format string, args ...any) {
 	r.fails++
-	if r.fails <= 40 {
+	if r.fails <= fvcC03MaxPrint() {
 		fmt.Printf("FVC-FAIL "+format+"\n", args...)
 	}
 }
@@ -588,4 +588,11 @@ func TestFVCBoundedC03Patterns(t *testing.T) {
 		fmt.Printf("FVC-FAIL-COUNT %d\n", r.fails)
 		t.Fail()
 	}
+}
+
+func fvcC03MaxPrint() int {
+	if os.Getenv("FVC_C03_ALL") != "" {
+		return 1 << 30
+	}
+	return 40
 }
